@@ -29,6 +29,8 @@ def entry(rng, method, version, n, kind=None):
     _stats["entry"][kind] = _stats["entry"].get(kind, 0) + 1
     cl = ("content-length", str(n))
     extra = [("x-a", "b")] if rng.random() < 0.3 else []
+    if rng.random() < 0.3:
+        extra.append(("host", "own-host.test"))      # the request names its Host itself: analysis has nothing to add
     add = "header %s %s" % (hx(b"content-length"), hx(str(n)))
     if kind == "original":
         return [op_new(method, version, "http", "a.test", "/up", extra + [cl]), "proceed", "write_head #4096", "proceed"]
